@@ -1,13 +1,11 @@
-(* C02, node identities and skeletons of the B-tree model (layer M, BTree.v):
+(* C02, skeletons and generations of the B-tree model (layer M, BTree.v):
    - [skel]: a node with its values stripped (ids, keys and structure only); what a parked cursor
-     depends on when Put only overwrites a value;
+     depends on when Put only overwrites a value; [skel]-equal trees have the same ids, shape,
+     node lookup (up to skel) and in-order positions (up to values);
    - generation facts: Put/Delete bump [gen] by at most one; when [gen] is unchanged Put changed
-     values only (same skeleton) and Delete changed nothing;
-   - identity discipline [ids_ok]: the node ids of the tree are pairwise distinct and all below
-     [next_id]; preserved by Put and Delete for every tree whose internal nodes have one more child
-     than keys ([arity_ok], implied by [shape_ok] and by [root_ok]).
+     values only (same skeleton) and Delete changed nothing.
+   (Identity uniqueness under Put/Delete is in ProofsIds.v / ProofsRefine.v.)
    Stdlib only, no axioms. *)
-From Coq Require Import Permutation.
 From Juniper Require Import Common.Base Tree.Bound Tree.BTree Tree.Cursor Tree.CProofsTree.
 
 (* ---------------- small list facts ---------------- *)
@@ -15,7 +13,7 @@ From Juniper Require Import Common.Base Tree.Bound Tree.BTree Tree.Cursor Tree.C
 Lemma nil_dec {A} (l : list A) : l = [] \/ l <> [].
 Proof. destruct l; [left; reflexivity|right; discriminate]. Qed.
 
-Lemma nth_map_nth {A B} (f : A -> B) (d : B) (d' : A) : forall (l : list A) i,
+Lemma nth_map_nth_lt {A B} (f : A -> B) (d : B) (d' : A) : forall (l : list A) i,
   (i < length l)%nat -> nth_map f d l i = f (nth i l d').
 Proof.
   induction l as [|a l IH]; intros i Hi; simpl in Hi; [lia|].
@@ -29,13 +27,6 @@ Proof.
     try discriminate.
   - injection Hi as ->. simpl. rewrite Hf. reflexivity.
   - simpl. f_equal. eapply IH; eauto.
-Qed.
-
-Lemma set_at_length {A} (x : A) : forall (l : list A) i,
-  (i < length l)%nat -> length (set_at i x l) = length l.
-Proof.
-  unfold set_at. induction l as [|b l IH]; intros i Hi; simpl in Hi; [lia|].
-  destruct i as [|i]; simpl; [reflexivity|]. f_equal. apply IH. lia.
 Qed.
 
 (* ---------------- skeleton: ids, keys, structure; no values ---------------- *)
@@ -162,112 +153,6 @@ Section Skel.
 
 End Skel.
 
-(* ---------------- permutations of id lists, by counting ---------------- *)
-
-Definition one (a x : nat) : nat := if Nat.eq_dec a x then 1%nat else 0%nat.
-
-Lemma cnt_cons a l x :
-  count_occ Nat.eq_dec (a :: l) x = (one a x + count_occ Nat.eq_dec l x)%nat.
-Proof. unfold one. simpl. destruct (Nat.eq_dec a x); reflexivity. Qed.
-
-Lemma cnt_nil x : count_occ Nat.eq_dec [] x = 0%nat.
-Proof. reflexivity. Qed.
-
-Ltac perm_hyps z :=
-  repeat match goal with
-  | H : Permutation _ _ |- _ =>
-      apply (Permutation_count_occ Nat.eq_dec) in H; specialize (H z)
-  | H : @eq (list nat) _ _ |- _ =>
-      apply (f_equal (fun l => count_occ Nat.eq_dec l z)) in H; cbv beta in H
-  end.
-
-Ltac perm :=
-  apply (Permutation_count_occ Nat.eq_dec);
-  let z := fresh "z" in
-  intros z; perm_hyps z;
-  repeat rewrite ?count_occ_app, ?cnt_cons, ?cnt_nil in *;
-  lia.
-
-Lemma fm_cons {A B} (f : A -> list B) a l : flat_map f (a :: l) = f a ++ flat_map f l.
-Proof. reflexivity. Qed.
-
-Lemma fm_firstn_skipn {A B} (f : A -> list B) n l :
-  flat_map f (firstn n l) ++ flat_map f (skipn n l) = flat_map f l.
-Proof. rewrite <- flat_map_app, firstn_skipn. reflexivity. Qed.
-
-Lemma fm_insert_at {A} (f : A -> list nat) i x l :
-  Permutation (flat_map f (insert_at i x l)) (f x ++ flat_map f l).
-Proof.
-  unfold insert_at. rewrite flat_map_app, fm_cons.
-  pose proof (fm_firstn_skipn f i l) as E. perm.
-Qed.
-
-Lemma fm_set_at {A} (f : A -> list nat) i x l :
-  Permutation (flat_map f (set_at i x l)) (f x ++ flat_map f (remove_at i l)).
-Proof.
-  unfold set_at, remove_at. rewrite !flat_map_app, fm_cons. perm.
-Qed.
-
-Lemma split1 {A} : forall (l : list A) i, (i < length l)%nat ->
-  exists F a R, l = F ++ a :: R /\ length F = i.
-Proof.
-  induction l as [|b l IH]; intros i Hi; simpl in Hi; [lia|].
-  destruct i as [|i].
-  - exists [], b, l. auto.
-  - destruct (IH i) as (F & a & R & -> & HF); [lia|].
-    exists (b :: F), a, R. simpl. auto.
-Qed.
-
-Lemma split2 {A} (l : list A) i : (S i < length l)%nat ->
-  exists F a b R, l = F ++ a :: b :: R /\ length F = i.
-Proof.
-  intros Hi. destruct (split1 l i) as (F & a & R & -> & HF); [lia|].
-  rewrite app_length in Hi. simpl in Hi.
-  destruct R as [|b R]; [simpl in Hi; lia|]. exists F, a, b, R. auto.
-Qed.
-
-Lemma nth_middle2 {A} (F R : list A) a b d : nth (S (length F)) (F ++ a :: b :: R) d = b.
-Proof. induction F as [|f F IH]; simpl; auto. Qed.
-
-Lemma set_at_middle {A} (F R : list A) a x : set_at (length F) x (F ++ a :: R) = F ++ x :: R.
-Proof.
-  unfold set_at. induction F as [|f F IH]; simpl; [reflexivity|]. f_equal. exact IH.
-Qed.
-
-Lemma set_at_middle2 {A} (F R : list A) a b y :
-  set_at (S (length F)) y (F ++ a :: b :: R) = F ++ a :: y :: R.
-Proof.
-  unfold set_at. induction F as [|f F IH]; simpl; [reflexivity|]. f_equal. exact IH.
-Qed.
-
-Lemma remove_at_middle {A} (F R : list A) a : remove_at (length F) (F ++ a :: R) = F ++ R.
-Proof.
-  unfold remove_at. induction F as [|f F IH]; simpl; [reflexivity|]. f_equal. exact IH.
-Qed.
-
-Lemma remove_at_middle2 {A} (F R : list A) a b :
-  remove_at (S (length F)) (F ++ a :: b :: R) = F ++ a :: R.
-Proof.
-  unfold remove_at. induction F as [|f F IH]; simpl; [reflexivity|]. f_equal. exact IH.
-Qed.
-
-Lemma fm_remove_at {A} (f : A -> list nat) i l d : (i < length l)%nat ->
-  Permutation (flat_map f l) (f (nth i l d) ++ flat_map f (remove_at i l)).
-Proof.
-  intros Hi. destruct (split1 l i Hi) as (F & a & R & -> & <-).
-  rewrite nth_middle, remove_at_middle, !flat_map_app, fm_cons. perm.
-Qed.
-
-Lemma NoDup_app_intro {A} (l1 l2 : list A) :
-  NoDup l1 -> NoDup l2 -> (forall a, In a l1 -> In a l2 -> False) -> NoDup (l1 ++ l2).
-Proof.
-  induction l1 as [|a l1 IH]; simpl; intros H1 H2 Hd; [exact H2|].
-  inversion H1 as [|a' l' Hna Hnd]; subst. constructor.
-  - intros Hin. apply in_app_or in Hin. destruct Hin as [Hin|Hin]; [auto|].
-    apply (Hd a); auto.
-  - apply IH; auto. intros b Hb1 Hb2. apply (Hd b); auto.
-Qed.
-
 (* ---------------- the B-tree operations ---------------- *)
 
 Section Ids.
@@ -284,13 +169,7 @@ Section Ids.
   Local Notation put := (put K V cmp kzero vzero maxKVs).
   Local Notation del := (del K V cmp kzero vzero minKVs).
   Local Notation delete := (delete K V cmp kzero vzero minKVs).
-  Local Notation remove_rightmost := (remove_rightmost K V kzero vzero minKVs).
-  Local Notation fix_child := (fix_child K V kzero vzero minKVs).
-  Local Notation rotate_left := (rotate_left K V kzero vzero).
-  Local Notation rotate_right := (rotate_right K V kzero vzero).
-  Local Notation merge_two := (merge_two K V kzero vzero).
   Local Notation split_node := (split_node K V kzero vzero maxKVs).
-  Local Notation kvzero := (kvzero K V kzero vzero).
   Local Notation Upd := (Upd K V).
   Local Notation Ins := (Ins K V).
   Local Notation Split := (Split K V).
@@ -370,36 +249,6 @@ Section Ids.
     intros Hne Es. destruct cs as [|c cs]; [congruence|]. simpl. rewrite Es. reflexivity.
   Qed.
 
-  Lemma rr_leaf id kvs :
-    remove_rightmost (Node id kvs []) = (Node id (removelast kvs) [], last kvs kvzero).
-  Proof. reflexivity. Qed.
-
-  Lemma rr_int id kvs cs :
-    cs <> [] ->
-    remove_rightmost (Node id kvs cs) =
-    let '(c', kv) := nth_map remove_rightmost (dummy, kvzero) cs (length kvs) in
-    (fix_child id kvs (set_at (length kvs) c' cs) (length kvs), kv).
-  Proof. intros Hne. destruct cs as [|c cs]; [congruence|]. reflexivity. Qed.
-
-  Lemma del_leaf id kvs k idx found :
-    search_node k kvs = (idx, found) ->
-    del (Node id kvs []) k =
-    if found then (Node id (remove_at idx kvs) [], true) else (Node id kvs [], false).
-  Proof. intros Es. simpl. rewrite Es. reflexivity. Qed.
-
-  Lemma del_int id kvs cs k idx found :
-    cs <> [] -> search_node k kvs = (idx, found) ->
-    del (Node id kvs cs) k =
-    if found then
-      let '(c', kv) := nth_map remove_rightmost (dummy, kvzero) cs idx in
-      (fix_child id (set_at idx kv kvs) (set_at idx c' cs) idx, true)
-    else
-      let '(c', b) := nth_map (fun c => del c k) (dummy, false) cs idx in
-      if b then (fix_child id kvs (set_at idx c' cs) idx, true) else (Node id kvs cs, false).
-  Proof.
-    intros Hne Es. destruct cs as [|c cs]; [congruence|]. simpl. rewrite Es. reflexivity.
-  Qed.
-
 
   (* ---------------- Put: generation and skeleton ---------------- *)
 
@@ -425,7 +274,7 @@ Section Ids.
       + destruct (arity_int_inv _ _ _ Hok Hne) as (Hk & Hlen & Hall).
         destruct (search_node_bound _ _ _ _ Es) as [Hidx _].
         assert (Hi : (idx < length cs)%nat) by lia.
-        rewrite (nth_map_nth _ _ dummy cs idx Hi) in H.
+        rewrite (nth_map_nth_lt _ _ dummy cs idx Hi) in H.
         destruct (ins (nth idx cs dummy) k v fresh) as [rc f1] eqn:Ec.
         destruct rc as [c|c|l s r].
         * injection H as <- <-. simpl. f_equal.
@@ -462,3 +311,54 @@ Section Ids.
   Qed.
 
 End Ids.
+
+(* ---------------- non-vacuity ---------------- *)
+
+Section Examples.
+  Let zput (t : btree Z Z) (k : Z) : btree Z Z := put Z Z Z.compare 0 0 3 t k k.
+  (* minKVs = 1, maxKVs = 3: twenty insertions split the root twice (three levels, ten nodes) *)
+  Let ex_t : btree Z Z := fold_left zput [1; 2; 3; 4; 5; 6; 7; 8; 9; 10; 11; 12; 13; 14; 15; 16; 17; 18; 19; 20]
+                            empty_tree.
+
+  Example ex_t_height : height (root ex_t) = 3%nat /\ length (ids (root ex_t)) = 10%nat.
+  Proof. vm_compute. split; reflexivity. Qed.
+
+  Example ex_t_root_ok : root_ok (root ex_t).
+  Proof.
+    left. vm_compute.
+    repeat first [ apply shape_leaf; discriminate
+                 | apply shape_int; [discriminate|reflexivity|]
+                 | apply Forall_cons
+                 | apply Forall_nil ].
+  Qed.
+
+  (* Put on an existing key: same generation, a different tree (the value changed), same skeleton *)
+  Example ex_put_present :
+    let t' := put Z Z Z.compare 0 0 3 ex_t 5 77 in
+    gen t' = gen ex_t /\ get Z Z Z.compare 0 0 ex_t 5 = 5 /\ get Z Z Z.compare 0 0 t' 5 = 77
+    /\ skel (root t') = skel (root ex_t).
+  Proof. vm_compute. repeat split; reflexivity. Qed.
+
+  (* the same through the theorem *)
+  Example ex_put_same_gen_skel :
+    skel (root (put Z Z Z.compare 0 0 3 ex_t 5 77)) = skel (root ex_t).
+  Proof. apply put_same_gen_skel; [exact ex_t_root_ok|vm_compute; reflexivity]. Qed.
+
+  (* Put of a new key bumps the generation; Delete of an absent key changes nothing, of a present
+     key bumps the generation *)
+  Example ex_gens :
+    gen (put Z Z Z.compare 0 0 3 ex_t 21 21) = gen ex_t + 1
+    /\ delete Z Z Z.compare 0 0 1 ex_t 42 = ex_t
+    /\ gen (delete Z Z Z.compare 0 0 1 ex_t 4) = gen ex_t + 1.
+  Proof. vm_compute. repeat split; reflexivity. Qed.
+End Examples.
+
+Print Assumptions skel_node_keys.
+Print Assumptions skel_ids.
+Print Assumptions skel_shape_ok.
+Print Assumptions skel_find_node.
+Print Assumptions skel_inorder_pos.
+Print Assumptions put_gen.
+Print Assumptions put_same_gen_skel.
+Print Assumptions delete_gen.
+Print Assumptions delete_same_gen.
